@@ -603,6 +603,116 @@ fn check_shares(s: &mut Incent, ctx: &mut Ctx, o: &Obs, op: &str) {
 }
 
 // ---------------------------------------------------------------------------------------------
+// claim reference
+// ---------------------------------------------------------------------------------------------
+
+#[derive(Clone, Copy, PartialEq, Debug)]
+pub enum WeightRule {
+    /// the documented rule: the address's weight for epoch k is the latest history entry at or
+    /// before k ("we keep a registry on when it changes")
+    History,
+    /// the contract's loop as written: history entries are only looked at for epochs in which
+    /// the flow is active
+    ContractLoop,
+}
+
+/// What a claim by `who` in state `o` pays out of every flow: per-epoch emission by the documented
+/// linear rule `(funded at k - emitted up to k-1) / (end at k - k)` replayed on the flow's own
+/// `emitted_tokens` record, times the address's weight over the epoch's snapshot (Decimal256 floor,
+/// then floor), for at most 100 epochs from the claim cursor. `Err(())`: the claim must fail
+/// (sanity check / arithmetic); `Ok(None)`: outside what the reference models.
+pub fn claim_reference(o: &Obs, who: &str, rule: WeightRule) -> Result<Option<BTreeMap<u64, u128>>, ()> {
+    use bnum::types::U512;
+    let e = o.epoch;
+    let last = o.raw.last_claimed.get(who).copied();
+    if last == Some(e) {
+        return Err(());
+    }
+    let empty = BTreeMap::new();
+    let hist = o.raw.hist.get(who).unwrap_or(&empty);
+    let mut out = BTreeMap::new();
+    for f in o.flows.iter().filter(|f| f.start <= e) {
+        let (exp_amt, exp_end) = f.hist.values().next_back().copied().unwrap_or((f.amount0, f.end));
+        if e > exp_end && f.claimed == exp_amt {
+            continue;
+        }
+        let (mut lu, mut lw) = hist.iter().next().map(|(k, w)| (*k, *w)).unwrap_or((0, 0));
+        let first = match last {
+            Some(l) => l + 1,
+            None => {
+                if f.start > lu { lu } else { f.start }
+            }
+        };
+        let mut emitted = f.emitted.clone();
+        let mut claimed = f.claimed;
+        let mut paid = 0u128;
+        let mut count = 0u64;
+        for k in first..=e {
+            count += 1;
+            if count > 100 {
+                break;
+            }
+            if k < f.start {
+                continue;
+            } else if k >= exp_end {
+                break;
+            }
+            let prev = if emitted.is_empty() { 0 } else { emitted.get(&k.saturating_sub(1)).copied().unwrap_or(0) };
+            let (amt_k, end_k) = f.hist.range(..=k).next_back().map(|(_, v)| *v).unwrap_or((f.amount0, f.end));
+            if end_k <= k {
+                // the contract would divide by zero / underflow here
+                return Ok(None);
+            }
+            let emission = amt_k.saturating_sub(prev) / (end_k - k) as u128;
+            if !emitted.contains_key(&k) {
+                let Some(t) = emission.checked_add(prev) else { return Err(()) };
+                emitted.insert(k, t);
+            }
+            let w = match rule {
+                WeightRule::ContractLoop => {
+                    if let Some(w) = hist.get(&k) {
+                        lu = k;
+                        lw = *w;
+                        *w
+                    } else if lu != 0 && lu <= k {
+                        lw
+                    } else {
+                        continue;
+                    }
+                }
+                WeightRule::History => match hist.range(..=k).next_back() {
+                    Some((_, w)) => *w,
+                    None => continue,
+                },
+            };
+            let g = o.raw.snaps.get(&k).copied().unwrap_or(0);
+            if g == 0 {
+                continue;
+            }
+            let e18 = U512::from(1_000_000_000_000_000_000u128);
+            let ratio = U512::from(w) * e18 / U512::from(g);
+            let r = U512::from(emission) * ratio / e18;
+            if r > U512::from(u128::MAX) {
+                return Err(());
+            }
+            let dg = r.digits();
+            let r = dg[0] as u128 | ((dg[1] as u128) << 64);
+            let Some(tot) = r.checked_add(claimed) else { return Err(()) };
+            if r > emission || tot > exp_amt {
+                return Err(());
+            }
+            if r == 0 {
+                continue;
+            }
+            claimed = tot;
+            paid += r;
+        }
+        out.insert(f.id, paid);
+    }
+    Ok(Some(out))
+}
+
+// ---------------------------------------------------------------------------------------------
 // step execution
 // ---------------------------------------------------------------------------------------------
 
@@ -1522,6 +1632,34 @@ fn do_claim(s: &mut Incent, ctx: &mut Ctx, before: &Obs, actor: usize, fault: Fa
                             format!("{who} claim in epoch {e}: flow {} paid {pf128} > emission {em} x reported share {w}/{g}", fb.id));
                     }
                 }
+            }
+        }
+        // (g) every flow pays the emission of each claimed epoch times the weight the address's
+        // history fixed for that epoch over the epoch's snapshot
+        match claim_reference(before, who, WeightRule::History) {
+            Ok(Some(want)) => {
+                ctx.probe("claim_checked_against_reference");
+                for fb in &before.flows {
+                    let Some(fa_) = after.flow(fb.id) else { continue };
+                    let pf128 = fb.rec_out().saturating_sub(fa_.rec_out());
+                    let w = want.get(&fb.id).copied().unwrap_or(0);
+                    if pf128 != w {
+                        let as_written = claim_reference(before, who, WeightRule::ContractLoop).ok().flatten().and_then(|m| m.get(&fb.id).copied());
+                        // N8 (repaired in /repo, c1925ad): the loop as originally written explains the amount;
+                        // only used to label the violation, it is not a known finding any more
+                        let n8 = as_written == Some(pf128);
+                        ctx.fail("C13", "claim_uses_weight_fixed_by_history", if n8 { "history_before_flow_start_ignored" } else { op }, None,
+                            format!("{who} claim in epoch {e} (last claimed {last:?}): flow {} (start {}) paid {pf128}; emission x history weight / snapshot per epoch gives {w}; history {:?}", fb.id, fb.start, before.raw.hist.get(who)));
+                        break;
+                    }
+                }
+            }
+            Ok(None) => ctx.probe("claim_reference_not_applicable"),
+            Err(()) => {
+                let as_written = claim_reference(before, who, WeightRule::ContractLoop);
+                let n8 = matches!(as_written, Ok(Some(_)));
+                ctx.fail("C13", "claim_uses_weight_fixed_by_history", if n8 { "history_before_flow_start_ignored" } else { "claim_ok_reference_rejects" }, None,
+                    format!("{who} claim in epoch {e} succeeded paying {paid:?} although by the weights its history fixed the sanity check must reject it"));
             }
         }
         for a in 0..n_assets {
